@@ -122,3 +122,50 @@ def source_hash(qualname: str):
     except (OSError, TypeError):
         src = repr(obj)
     return {'name': qualname, 'sha256': hashlib.sha256(src.encode()).hexdigest()[:16], 'lines': src.count('\n')}
+
+
+# --------------------------------------------------------------------------------------------------
+# every class of the package that owns a ParameterDict ("what the simulator accepts")
+# --------------------------------------------------------------------------------------------------
+def dummy_model():
+    old = sys.argv
+    cwd = os.getcwd()
+    try:
+        sys.argv = ['']
+        return Model(enable_geophires_logging_config=False)
+    finally:
+        sys.argv = old
+        os.chdir(cwd)
+
+
+SOURCE_CLASSES = [
+    ('geophires_x.Reservoir', 'Reservoir'), ('geophires_x.TDPReservoir', 'TDPReservoir'),
+    ('geophires_x.LHSReservoir', 'LHSReservoir'), ('geophires_x.MPFReservoir', 'MPFReservoir'),
+    ('geophires_x.SFReservoir', 'SFReservoir'), ('geophires_x.CylindricalReservoir', 'CylindricalReservoir'),
+    ('geophires_x.UPPReservoir', 'UPPReservoir'), ('geophires_x.TOUGH2Reservoir', 'TOUGH2Reservoir'),
+    ('geophires_x.SBTReservoir', 'SBTReservoir'), ('geophires_x.SUTRAReservoir', 'SUTRAReservoir'),
+    ('geophires_x.WellBores', 'WellBores'), ('geophires_x.AGSWellBores', 'AGSWellBores'),
+    ('geophires_x.SBTWellbores', 'SBTWellbores'), ('geophires_x.SUTRAWellBores', 'SUTRAWellBores'),
+    ('geophires_x.SurfacePlant', 'SurfacePlant'), ('geophires_x.SurfacePlantIndustrialHeat', 'SurfacePlantIndustrialHeat'),
+    ('geophires_x.SurfacePlantSubcriticalORC', 'SurfacePlantSubcriticalOrc'),
+    ('geophires_x.SurfacePlantSupercriticalORC', 'SurfacePlantSupercriticalOrc'),
+    ('geophires_x.SurfacePlantSingleFlash', 'SurfacePlantSingleFlash'), ('geophires_x.SurfacePlantDoubleFlash', 'SurfacePlantDoubleFlash'),
+    ('geophires_x.SurfacePlantAbsorptionChiller', 'SurfacePlantAbsorptionChiller'),
+    ('geophires_x.SurfacePlantHeatPump', 'SurfacePlantHeatPump'), ('geophires_x.SurfacePlantDistrictHeating', 'SurfacePlantDistrictHeating'),
+    ('geophires_x.SurfacePlantAGS', 'SurfacePlantAGS'), ('geophires_x.SurfacePlantSUTRA', 'SurfacePlantSUTRA'),
+    ('geophires_x.Economics', 'Economics'), ('geophires_x.AGSEconomics', 'AGSEconomics'), ('geophires_x.SBTEconomics', 'SBTEconomics'),
+    ('geophires_x.SUTRAEconomics', 'SUTRAEconomics'), ('geophires_x.EconomicsAddOns', 'EconomicsAddOns'),
+    ('geophires_x.EconomicsS_DAC_GT', 'EconomicsS_DAC_GT'),
+    ('geophires_x.Outputs', 'Outputs'),
+]
+
+
+def make_source(modname, clsname, model=None):
+    mod = importlib.import_module(modname)
+    cls = getattr(mod, clsname)
+    model = model or dummy_model()
+    if clsname == 'Outputs':
+        obj = cls(model, output_file='HDR.out')
+    else:
+        obj = cls(model)
+    return obj, model, mod
